@@ -149,6 +149,32 @@ def op_wire(op):
     return [Sym(n), op[1]]
 
 
+def _touch(x):
+    """read-only use of an object: every public accessor is called once; this must not change what == answers"""
+    for name in ("parser_metadata", "start_line", "raw", "key", "value", "comment", "entry_type", "fields", "fields_dict"):
+        try:
+            getattr(x, name)
+        except Exception:  # noqa
+            pass
+    for f in (repr, str):
+        try:
+            f(x)
+        except Exception:  # noqa
+            pass
+    try:
+        list(x.items())
+    except Exception:  # noqa
+        pass
+
+
+def _touched(a, b, case):
+    t = case.get("touch", "")
+    if "a" in t:
+        _touch(a)
+    if "b" in t:
+        _touch(b)
+
+
 def request(case):
     if not lean_representable("".join(texts_of(case, []))):
         return None
@@ -218,10 +244,12 @@ def impl(case):
     if k == "eq":
         a = mk_block(case["a"])
         b = _copy_of(a, case["copy"]) if "copy" in case else mk_block(case["b"])
+        _touched(a, b, case)
         return enc([bool(a == b), bool(b == a)])
     if k == "feq":
         a = mk_field(case["a"])
         b = _copy_of(a, case["copy"]) if "copy" in case else mk_field(case["b"])
+        _touched(a, b, case)
         return enc([bool(a == b), bool(b == a)])
     raise ValueError(k)
 
@@ -246,6 +274,7 @@ def oracle(case):
         else:
             b = mk_block(case["b"])
             want = _norm(case["a"]) == _norm(case["b"])
+        _touched(a, b, case)
         got = (a == b, b == a, not (a != b))
         if got != (want, want, want):
             return "blocks with %s content compare (a==b, b==a, not a!=b) = %r" % ("the same" if want else "different", got)
@@ -258,6 +287,7 @@ def oracle(case):
         else:
             b = mk_field(case["b"])
             want = case["a"] == case["b"]
+        _touched(a, b, case)
         got = (a == b, b == a, not (a != b))
         if got != (want, want, want):
             return "fields with %s content compare (a==b, b==a, not a!=b) = %r" % ("the same" if want else "different", got)
@@ -556,6 +586,14 @@ def eq_cases():
     for d in base:
         yield {"k": "eq", "a": d, "copy": "copy"}
         yield {"k": "eq", "a": d, "copy": "deepcopy"}
+        # using one of two equal objects read-only (all accessors, repr) must not make them unequal
+        for touch in ("a", "b", "ab"):
+            yield {"k": "eq", "a": d, "copy": "copy", "touch": touch}
+            yield {"k": "eq", "a": d, "copy": "deepcopy", "touch": touch}
+            yield {"k": "eq", "a": d, "b": dict(d), "touch": touch}
+            e = dict(d, md=[])
+            yield {"k": "eq", "a": e, "b": dict(e), "touch": touch}
+            yield {"k": "eq", "a": e, "copy": "deepcopy", "touch": touch}
         for p in perturbations(d):
             yield {"k": "eq", "a": d, "b": p}
             yield {"k": "eq", "a": p, "b": d}
